@@ -146,7 +146,7 @@ class G:
                  "sx <== o[%s];", "o[%s] <== a;", "sx <== g(%s);", "sx <== a ? %s : b;", "sx <== a + %s;", "sx <== -%s;",
                  "var arr[2] = [%s, 1];", "%s === a;", "sx <== parallel (%s);", "sx <== P(%s)(a);", "sx <== U()(a + %s);",
                  "(sx, g(1)) <== (a, %s);", "(sx, sy) <== (a, b, %s);", "sx <== (a, %s);", "1 + 2 <== %s;", "sx <== W(%s);",
-                 "%s <== a;", "(sx, %s) <== (a, b);", "sx <== P(1)(%s);", "for (var i = 0; i < %s; i++) { }", "sx <== [%s][0];"]
+                 "%s <== a;", "(sx, %s) <== (a, b);", "sx <== P(1)(%s);", "for (var i = 0; i < %s; i++) { }", "var arr[1] = [%s]; sx <== arr[0];"]
         extra = ["sx <== Nope()(a);", "sx <== V()(a);", "(sx, sy) <== V()(a <== a);", "(sx, sy) <== V()(a <== a, b <== b, a <== b);",
                  "(sx, sy) <== V()(a <== a, c <== b);", "sx <== V()(a, b);", "(sx, sy) <== U()(a);", "U()(a);", "sx <== U()(a, b);", "sx <== U()();"]
         if rng.chance(1, 4):
@@ -351,6 +351,10 @@ def run(ctx):
                 continue
             text, defs, spans, p, r = meta
             if "pre" not in r:
+                continue
+            if any(rp["id"].startswith("P") for rp in r["reports"]):
+                # the generated file as a whole does not parse (nothing was desugared): not an observation about desugaring
+                stats["files that do not parse (skipped)"] += 1
                 continue
             real_reports = collections.Counter()
             for rp in r["reports"]:
